@@ -181,3 +181,59 @@ def atoms_of(v, it=None) -> set:
     if isinstance(v, NF):
         return v.atoms()
     return out
+
+
+def valid_region(prog: Program) -> dict:
+    """Bounds of Grid.ingrid as normal forms over xmin/xmax/ymin/ymax:
+    {("X","lower"): (NF, strict), ("X","upper"): ..., ("Y","lower"): ..., ("Y","upper"): ...}."""
+    fi = prog.role_func("grid", "ingrid")
+    dom = NFDomain()
+    it = Interp(prog, dom, depth=0)
+    for k in ("xmin", "xmax", "ymin", "ymax"):
+        it.objenv[f"grid.{k}"] = NF.atom(k)
+    res, fr = it.run(fi, dict(X=NF.atom("X"), Y=NF.atom("Y")), "grid")
+    cmps = []
+
+    def collect(v):
+        if isinstance(v, NF) and len(v.atoms()) == 1:
+            info = dom.bool_info.get(v.canon())
+            if info is None:
+                return False
+            if info[0] == "and":
+                return collect(info[1]) and collect(info[2])
+            if info[0] == "cmp":
+                cmps.append(info)
+                return True
+        return False
+
+    if not (isinstance(res, NF) and collect(res)):
+        raise AnalysisError("Grid.ingrid is not a conjunction of comparisons")
+    bounds = {}
+    for _, op, a, b in cmps:
+        lo, hi = (a, b) if op in ("lt", "le") else (b, a)
+        strict = op in ("lt", "gt")
+        for var in ("X", "Y"):
+            if hi == NF.atom(var):
+                bounds[(var, "lower")] = (lo, strict)
+            if lo == NF.atom(var):
+                bounds[(var, "upper")] = (hi, strict)
+    if len(bounds) != 4:
+        raise AnalysisError(f"Grid.ingrid: expected four bounds, found {sorted(bounds)}")
+    return bounds
+
+
+def grid_2d_arrays(prog: Program) -> dict[str, tuple[str, str]]:
+    """Grid attributes read as 2-D blocks `ncid.variables[...][self.<J>, self.<I>]` -> (yslice, xslice)."""
+    fi = prog.role_func("grid", "__init__")
+    out = {}
+    for n in walk_no_nested(fi.node):
+        if isinstance(n, (ast.Assign, ast.AnnAssign)):
+            t = n.targets[0] if isinstance(n, ast.Assign) else n.target
+            if not (isinstance(t, ast.Attribute) and unparse(t.value) == "self") or n.value is None:
+                continue
+            for sub in ast.walk(n.value):
+                if isinstance(sub, ast.Subscript) and isinstance(sub.slice, ast.Tuple) and len(sub.slice.elts) == 2 and isinstance(sub.value, ast.Subscript) and unparse(sub.value.value).endswith(".variables"):
+                    a, b = unparse(sub.slice.elts[0]), unparse(sub.slice.elts[1])
+                    if a.startswith("self.") and b.startswith("self."):
+                        out[t.attr] = (a[5:], b[5:])
+    return out
